@@ -12,11 +12,18 @@
                                 by imm_tok to n resp. 2^64 − n with nothing left over
                                 (AL.Lemmas.immTok_dec / immTok_hex / immTok_neg_dec / immTok_neg_hex);
    * `imm_field_reads_back`   — kernel-checked, for EVERY value: the immediate bytes the model emits read
-                                back (little endian, any zero padding) as the value.
+                                back (little endian, any zero padding) as the value;
+   * `imm_field_dword/_qword/_reduced` (AL.Lemmas.ImmField) — kernel-checked, for EVERY value and any record:
+                                what `assemble_imm` emits is exactly the 4-byte, the 8-byte, or the minimal
+                                n-byte little-endian encoding of the constant, according to the facts the
+                                encoder established (not reduced and ≤ 0xffffffff; > 0xffffffff or marked by
+                                check_zero; reduced with its top byte set) — so `leVal` of the field is the
+                                constant.
 -/
 import AL.Properties.Sweep.C03
 import AL.Lemmas.Numerals
 import AL.Spec.X86Lemmas
+import AL.Lemmas.ImmField
 namespace AL.Properties.C03
 open AL AL.Impl AL.Gen AL.Lemmas AL.Spec.X86
 
@@ -31,5 +38,19 @@ theorem written_number_value (s : Instr) (n k : Nat) (hn : n < 2 ^ 64) :
 
 theorem imm_field_reads_back (c k : Nat) (h : c < 2 ^ 64) : leVal (assembleConst c ++ List.replicate k 0) = c :=
   leVal_assembleConst c h k
+
+/-- the three shapes of an emitted immediate field read back as the constant -/
+theorem imm_field_dword (s : Instr) (hi : s.imm = true) (hb : s.kw.isByte = false) (hr : s.reducedImm = false)
+    (hc : s.cons ≤ 0xffffffff) (hz : checkZero s s.cons (rowAt s.key).type = false) (hp : zeroPads s = true)
+    (h16 : is16 s = false) : leVal (assembleImm s) = s.cons := by
+  rw [assembleImm_dword s hi hb hr hc hz hp h16]
+  exact leVal_leBytes_lt 4 _ (by rw [p4]; omega)
+
+theorem imm_field_qword (s : Instr) (hi : s.imm = true) (hb : s.kw.isByte = false) (hr : s.reducedImm = false)
+    (h64 : s.cons < 2 ^ 64) (hp : zeroPads s = true)
+    (hc : 0xffffffff < s.cons ∨ (0x80000000 ≤ s.cons ∧ checkZero s s.cons (rowAt s.key).type = true)) :
+    leVal (assembleImm s) = s.cons := by
+  rw [assembleImm_qword s hi hb hr h64 hp hc]
+  exact leVal_leBytes_lt 8 _ (by rw [p8]; omega)
 
 end AL.Properties.C03
